@@ -5,8 +5,8 @@
      scr t        : (tw + bw + lw + #tabs + widest row) * (th + max (bh, #rows)) + 1   — the screen measure incl. scrollback
      Inv09 t      : the C09 invariant (every state reachable without a text-area resize: Props/C09.v) *)
 From Coq Require Import ZArith NArith List Bool Lia.
-From IE Require Import Model.TermCore Model.AnsiTok Model.Cost Model.Alloc Proofs.TermProofs Proofs.CostProofs Proofs.AllocProofs Proofs.TicksProofs Proofs.MacroProofs Run.RunC03.
-From IE Require Model.Sixel Model.Font.
+From IE Require Import Model.TermCore Model.AnsiTok Model.Cost Model.Alloc Proofs.TermProofs Proofs.CostProofs Proofs.AllocProofs Proofs.TicksProofs Proofs.MacroProofs Proofs.SixelCostProofs Run.RunC03.
+From IE Require Model.Sixel Model.Font Model.SixelCost.
 Import ListNotations.
 Local Open Scope Z_scope.
 
@@ -162,6 +162,26 @@ Theorem macro_invokes_half : forall body, 2 * zlen (find_invokes body) <= zlen b
 Proof. exact find_invokes_half. Qed.
 Theorem macro_table_ok : forall ms, macros_ok ms (macros_maxlen ms) (macros_maxinv ms).
 Proof. exact macros_max_ok. Qed.
+
+(* ---- (d) the sixel decoder (Model/Sixel.v with the counters of Model/SixelCost.v) ---------------------------------------------------------------------------------------- *)
+(* iterations (calls of parse_char + calls of parse_sixel_data by the repeat loop) <= payload length + executed repeat counts; the counted decoder IS the decoder *)
+Theorem sixel_ticks_bound : forall hsl s cs,
+  fst (SixelCost.parse_chars_t hsl s cs 0) = Sixel.parse_chars hsl s cs /\
+  0 <= snd (SixelCost.parse_chars_t hsl s cs 0) <= SixelCost.zlenN cs + SixelCost.rep_sum hsl s cs.
+Proof. exact (fun hsl s cs => conj (sixel_ticks_same_l hsl s cs) (sixel_ticks_bound_l hsl s cs)). Qed.
+(* bytes held by picture_data after any stretch of decoding: at most (rows) x (longest row), rows <= max(rows before, 6 (y + T) + 6, declared height),
+   longest row <= max(longest before, 4 (x + T), 4 x declared width), T = payload length + executed repeat counts.
+   Raster attributes (decl_max) and repeat counts (rep_sum) are the only numbers of the payload in the bound: the known classes sixel-raster / sixel-repeat *)
+Theorem sixel_alloc_bound : forall hsl s cs s', 0 <= Sixel.cur_x s -> 0 <= Sixel.cur_y s -> Sixel.parse_chars hsl s cs = Sixel.Ok s' ->
+  SixelCost.sixel_bytes (Sixel.rows s') <=
+  SixelCost.sixel_cap (Sixel.cur_x s) (Sixel.cur_y s) (Sixel.height (Sixel.rows s)) (SixelCost.mxl (Sixel.rows s))
+                      (SixelCost.zlenN cs + SixelCost.rep_sum hsl s cs) (fst (SixelCost.decl_max hsl s cs)) (snd (SixelCost.decl_max hsl s cs)).
+Proof. exact sixel_alloc_bound_l. Qed.
+(* the image Sixel::parse_from returns (rows padded to the longest one): 4 * max(T, declared width) * max(6 T + 6, declared height) bytes at most *)
+Theorem sixel_image_bound : forall hsl pal0 vs hs data w h d, Sixel.parse_from hsl pal0 vs hs data = Sixel.Ok (w, h, d) ->
+  let cs := data ++ [35] in let s0 := Sixel.init_state pal0 vs hs in let T := SixelCost.zlenN cs + SixelCost.rep_sum hsl s0 cs in
+  SixelCost.zlenN d <= Z.max (6 * T + 6) (snd (SixelCost.decl_max hsl s0 cs)) * (4 * Z.max T (fst (SixelCost.decl_max hsl s0 cs))).
+Proof. exact sixel_image_bound_l. Qed.
 
 (* ---- non-vacuity: the ledger inputs through the model ---------------------------------------------------------------------------------------- *)
 (* CSI 2147483647 S on 80x25: 12 parameter characters + 25 scrolls, not 2^31 *)
